@@ -164,14 +164,23 @@ func (t *c03) udpChain(r *rand.Rand) {
 		var l3pl []byte
 		var ip4 packet.IP4
 		var ip6 packet.IP6
+		// EncodeIP6 and EncodeUDP (like EncodeEther) go by capacity ("change slice in case slice is less than ..."): a slice of any
+		// length, zero included, with room behind it is encoded in place - e.g. the empty Payload() of a layer built a moment ago
+		short := func(b []byte) []byte {
+			if r.Intn(3) == 0 && len(b) > 0 {
+				cs["short_input_slices"] = true
+				return b[:r.Intn(min(len(b), 41))]
+			}
+			return b
+		}
 		if v6 {
-			ip6 = packet.EncodeIP6(ether.Payload(), ttl, sip, dip)
+			ip6 = packet.EncodeIP6(short(ether.Payload()), ttl, sip, dip)
 			l3pl = ip6.Payload()
 		} else {
-			ip4 = packet.EncodeIP4(ether.Payload(), ttl, sip, dip)
+			ip4 = packet.EncodeIP4(ether.Payload(), ttl, sip, dip) // (EncodeIP4 alone takes its room from the length, not the capacity)
 			l3pl = ip4.Payload()
 		}
-		udp := packet.EncodeUDP(l3pl, sp, dp)
+		udp := packet.EncodeUDP(short(l3pl), sp, dp)
 		if udp == nil {
 			err = errors.New("EncodeUDP returned nil")
 			return
